@@ -571,6 +571,10 @@ func planDel(t target, st *Step) outcome {
 	switch t.cls {
 	case "map":
 		k, ks := mapKey(t, st.Key)
+		if ks != kOK && t.v.IsNil() {
+			// a nil map only arises from storing nil into a typed slot (itself left open)
+			return outcome{skip: "bad_key_delete_on_nil_map"}
+		}
 		switch ks {
 		case kEither:
 			return outcome{skip: "nil_key_on_typed_map"}
